@@ -450,6 +450,9 @@ def c13(r):
         else:
             out.append(F('c13-step-after-stop', 'a plain value, Stop, UnsuccessfulResult or Kill ends the process', dict(after=a[:3], next=b[:3], ops=r.ops)))
             break
+    if p.state.value == 'excepted' and isinstance(p.exception(), UserExc) and p.exception().n == pm.EXC_VALUE_CODE:
+        out.append(F('c13-resume-value-raised', 'after Wait(f) and resume(v), f(v) runs - whatever v is (here: an exception INSTANCE '
+                     'passed as a plain value was raised instead of delivered)', dict(ops=r.ops)))
     undisturbed = all(c['op'] in ('pause', 'play', 'resume') for c in r.calls)
     if tr and undisturbed:
         oc = fns[tr[-1][0]][1]
